@@ -356,6 +356,14 @@ class EtherCat(Protocol):
                        continue
                 except OverflowError:
                     sent = False
+                    if not dgrams:
+                        # does not even fit into an empty packet: it never
+                        # will, so fail the request instead of retrying
+                        if not future.done():
+                            future.set_exception(OverflowError(
+                                "datagram too big for an EtherCAT packet"))
+                        sent = True
+                        continue
                 ensure_future(self.process_packet(dgrams, packet))
                 dgrams = []
                 packet = Packet()
